@@ -17,7 +17,7 @@ Not decided: the exact line sequence for a given chart (runtime).
 import ast
 
 from sa.model import AnalysisError, walk_shallow, dotted, norm
-from sa.util import expand_locals, cfg_of, shallow_calls, guarded_by_edge, const_str, status_const, strip_not
+from sa.util import expand_locals, partial_format, cfg_of, shallow_calls, guarded_by_edge, const_str, status_const, strip_not
 from sa.context import callgraph
 from sa import queues, wrap
 
@@ -111,14 +111,11 @@ def check(run, model, tier):
     for n in callnodes:
         if n in inst_calls:
             continue
-        tests = [t for t in g.nodes if t.kind == 'test']
-        ok = False
-        for t in tests:
-            i2, pol = strip_not(t.ast)
-            if dotted(i2) == chart + '.instrumented' and guarded_by_edge(g, n, t, 'false' if pol else 'true'):
-                ok = True
-            if isinstance(i2, ast.Call) and norm(i2.func) == 'hasattr' and guarded_by_edge(g, n, t, 'false' if pol else 'true'):
-                ok = True
+        from sa.boolflow import values_at
+        hs = sorted({norm(c) for t in g.nodes if t.kind == 'test' for c in ast.walk(t.ast) if isinstance(c, ast.Call) and norm(c.func) == 'hasattr'})
+        ki = chart + '.instrumented'
+        vals = values_at(g, n, {ki} | set(hs))
+        ok = bool(vals) and all(v.get(ki) is False or any(v.get(h_) is False for h_ in hs) for v in vals)
         run.inst('SPY.offer-before-call', inner, 'unlogged handler call only when not instrumented', ok,
                  '' if ok else 'spy_on calls the handler without logging the offer on an instrumented path', node=n.ast, obligation=True)
     for n, c, a in offers:
@@ -173,7 +170,7 @@ def check(run, model, tier):
         for n, c in apps:
             a = c.args[0] if c.args else None
             lit = const_str(a)
-            fmt = const_str(a.func.value) if isinstance(a, ast.Call) and isinstance(a.func, ast.Attribute) and a.func.attr == 'format' else None
+            fmt = partial_format(a)
             if lit == text or (fmt is not None and fmt.startswith(text)):
                 hit.append((n, c, a))
         ok = len(hit) == 1
@@ -189,7 +186,9 @@ def check(run, model, tier):
                 oko = all(not gg.exists_path(n, f_) for f_ in fncalls) and any(gg.dominates(f_, n) for f_ in fncalls)
             run.inst('SPY.markers', inn, 'marker %r is written %s the wrapped operation' % (text, when), oko, 'marker order is wrong', node=c, obligation=True)
             if isinstance(a, ast.Call) and a.args:
-                arg = norm(expand_locals(a.args[0], inn.node, depth=1, params=inn.params))
+                # the argument that fills the hole after the marker text (constant arguments are part of the text)
+                free = [x for x in a.args if not isinstance(x, ast.Constant)]
+                arg = norm(expand_locals(free[0], inn.node, depth=1, params=inn.params)) if free else 'a constant'
                 okn = arg.endswith('.signal_name') and (arg.split('.')[0] in inn.params or text == 'RECALL:')
                 run.inst('SPY.markers', inn, 'marker %r names the signal of the event concerned' % text, okn, 'marker argument is %s' % arg, node=c, obligation=True)
     marker_wrapper('spy_on_start', 'START', 'before')
